@@ -172,6 +172,8 @@ bool runStatic(const Seq& s, Fail& F, bool& nontrivial) {
 			if (!F.failed && q != C) F.set(S("StaticArrayT<%d>: iteration visited %d elements", C, q));
 			const StaticArrayT<T, C>& ca = arr; q = 0;
 			for (const auto& x : ca) { if (q >= C || x != m[q]) { F.set(S("StaticArrayT<%d>: const iteration wrong at %d", C, q)); break; } ++q; }
+			{ int n1 = 0; for (auto it = arr.cbegin(); it != arr.cend() && n1 <= C; ++it) { if (n1 >= C || *it != m[n1]) { F.set(S("StaticArrayT<%d>: cbegin()..cend() wrong at %d", C, n1)); break; } ++n1; } if (!F.failed && n1 != C) F.set(S("StaticArrayT<%d>: cbegin()..cend() visited %d elements", C, n1)); }
+			{ int n2 = 0; for (auto it = ca.begin(); it != ca.end() && n2 <= C; ++it) { if (n2 >= C || *it != m[n2]) { F.set(S("StaticArrayT<%d>: const begin()..end() wrong at %d", C, n2)); break; } ++n2; } if (!F.failed && n2 != C) F.set(S("StaticArrayT<%d>: const begin()..end() visited %d elements", C, n2)); }
 			if (!F.failed && q != C) F.set(S("StaticArrayT<%d>: const iteration visited %d elements", C, q));
 #endif
 			break; }
@@ -220,6 +222,13 @@ bool runDynamic(const Seq& s, Fail& F, bool& nontrivial) {
 		if (q != m.size()) F.set(S("DynamicArrayT<%d>: iteration visited %zu of %zu", C, q, m.size()));
 		const DynamicArrayT<Item, C>& ca = arr; q = 0;
 		for (const auto& x : ca) { if (q >= m.size() || x.v != m[q].v) { F.set(S("DynamicArrayT<%d>: const iteration position %zu wrong", C, q)); return; } ++q; }
+		// the explicit iterator pairs: begin()/end(), const begin()/end(), cbegin()/cend()
+		q = 0; for (auto it = arr.begin(); it != arr.end() && q <= size_t(C); ++it) { if (q >= m.size() || (*it).v != m[q].v) { F.set(S("DynamicArrayT<%d>: begin()..end() wrong at %zu", C, q)); return; } ++q; }
+		if (q != m.size()) { F.set(S("DynamicArrayT<%d>: begin()..end() visited %zu of %zu elements", C, q, m.size())); return; }
+		q = 0; for (auto it = ca.begin(); it != ca.end() && q <= size_t(C); ++it) { if (q >= m.size() || (*it).v != m[q].v) { F.set(S("DynamicArrayT<%d>: const begin()..end() wrong at %zu", C, q)); return; } ++q; }
+		if (q != m.size()) { F.set(S("DynamicArrayT<%d>: const begin()..end() visited %zu of %zu elements", C, q, m.size())); return; }
+		q = 0; for (auto it = arr.cbegin(); it != arr.cend() && q <= size_t(C); ++it) { if (q >= m.size() || (*it).v != m[q].v) { F.set(S("DynamicArrayT<%d>: cbegin()..cend() wrong at %zu", C, q)); return; } ++q; }
+		if (q != m.size()) { F.set(S("DynamicArrayT<%d>: cbegin()..cend() visited %zu of %zu elements", C, q, m.size())); return; }
 	};
 	for (size_t k = 0; k < s.ops.size() && !F.failed; ++k) {
 		const Op& o = s.ops[k];
@@ -370,8 +379,9 @@ bool runStream(const Seq& s, Fail& F, bool& nontrivial) {
 	using Buffer = ffsm2::detail::StreamBufferT<C>;
 	Boxed<Buffer> box;
 	struct { Buffer& b; } g{box.get()};
-	memset(static_cast<void*>(&g.b), 0xEE, sizeof(Buffer));
 	constexpr int BYTES = Buffer::BYTE_COUNT;
+	if (s.aux & 1) memset(static_cast<void*>(&g.b), 0xEE, sizeof(Buffer));          // raw garbage over the whole object ...
+	else { new (&g.b) Buffer(); for (int k = 0; k < BYTES; ++k) g.b.data()[k] = 0xEE; }   // ... or stale bytes written through data() into a properly constructed buffer
 	if (Buffer::BIT_CAPACITY != C || BYTES != (C + 7) / 8) { F.set(S("StreamBufferT<%d>: BYTE_COUNT=%d", C, BYTES)); return false; }
 	const int c0 = ((s.aux % C) + C) % C;
 	ffsm2::detail::BitWriteStreamT<C> ws{g.b, static_cast<ffsm2::Long>(c0)};
